@@ -143,6 +143,8 @@ def tag(e):
         a, b = tag(e.elts[0]), tag(e.elts[1])
         if isinstance(a, str) and isinstance(b, str) and a != b:
             return ('P', a, b)
+        if isinstance(a, str) and a == b:
+            return a      # (x.start, x.stop): a range along one axis
         return None
     if isinstance(e, ast.IfExp):
         a, b = tag(e.body), tag(e.orelse)
